@@ -186,6 +186,34 @@ def reachable(nodes, root):
     return seen
 
 
+
+def sibling_masks(rng):
+    """ordinary cells whose children carry INCOMPARABLE level masks (the parent's mask is their OR, not their maximum): pruned branches
+    of masks a and b with (a | b) not in (a, b) as siblings in every order, optionally with a level-0 sibling, wrapped in as many Merkle
+    proofs as the level needs so that the bag's root is an ordinary level-0 DAG a block proof could contain. yields (tag, nodes, root)"""
+    import hashlib
+    pairs = [(1, 2), (2, 1), (1, 4), (4, 1), (2, 4), (4, 2), (3, 4), (4, 3), (5, 2), (2, 5), (1, 6), (6, 1)]
+    for a, b in pairs:
+        for extra in (False, True):
+            db = G.DagBuilder()
+            kids = []
+            for j, m in enumerate((a, b)):
+                pc = G.popcount(m)
+                hs = [hashlib.sha256(b'%d-%d-%d-%d' % (a, b, j, l)).digest() for l in range(pc)]
+                ds = [rng.randrange(0, 40) for _ in range(pc)]
+                kids.append(db.add(G.PRUNED, G.pruned_bits(m, hs, ds)))
+            if extra:
+                kids.insert(rng.randrange(3), db.add(G.ORD, G.rand_bits(rng, rng.randrange(1, 30))))
+            top = db.add(G.ORD, G.rand_bits(rng, rng.randrange(0, 20)), tuple(kids))
+            ok = db.ok(top)
+            while ok and db.infos[top].mask != 0:
+                top = db.add(G.MPROOF, G.mproof_bits(db.infos[top]), (top,))
+                ok = db.ok(top)
+            if ok:
+                root = db.add(G.ORD, '1', (top,))
+                if db.ok(root):
+                    yield f'sibling-masks-{a}-{b}{"-x" if extra else ""}', db.nodes, root
+
 def cases(ctx, scale=1.0):
     """yields (tag, nodes, root, big) ; `big` cases should be checked with the economical protocol."""
     rng = ctx.rng
@@ -214,6 +242,8 @@ def cases(ctx, scale=1.0):
         e = pruned_beside_original(rng)
         if e:
             yield f'pruned-beside{t}', e[0], e[1], False
+    for tag_, nodes_, root_ in sibling_masks(rng):
+        yield tag_, nodes_, root_, False
     # sharing
     yield 'lattice-8x4', lattice(8, 4), None, False
     yield 'lattice-40x3', lattice(40, 3), None, False
